@@ -18,7 +18,7 @@ MENUS = collections.OrderedDict([
     ('bymonth', [1, (2, 12), (4, 9), 2, (1, 2), (3, 5, 7), (6, 8, 10, 11)]),   # every month is named by some value;             # (1, 2): neighbours, so an nth weekday that spills over lands in a listed month
     ('bymonthday', [1, 31, -1, (29, -31), (15, -2)]),
     ('byyearday', [1, 366, -1, (60, -366), (100, 200, -100)]),
-    ('byweekno', [1, 53, -1, (52, -53), 20, (2, -2)]),
+    ('byweekno', [1, 53, -1, (52, -53), 20, (2, -2), (1, -2)]),   # (1, -2): week 1 together with a negative number
     ('byweekday', [(TU, None), ((MO, None), (FR, None)), (TU, 1), (FR, -1), ((SU, 2), (SA, -2)),
                    ((MO, None), (FR, 1)), ((FR, -1), (TH, None)), (SU, 5), (SU, -5), (MO, 53), (WE, -53), TH,
                    (TU, 10), (FR, -20),                        # ordinals written with a zero digit
